@@ -7,7 +7,7 @@ def run(ctx):
     q = ctx.quick()
     b = shm.shmsim(ctx)
     parts = shm.run_single(ctx, b, ["c11sweep", "--chain", "70000" if q else "400000"], NPROC, 1800)
-    sw = {"evaluations": 0, "observations": 0, "chain_steps": 0, "wrap_crossings": 0}
+    sw = {"evaluations": 0, "republished": 0, "observations": 0, "chain_steps": 0, "wrap_crossings": 0}
     classes = {}
     viol, samples = [], []
     lost = 0
@@ -34,7 +34,7 @@ def run(ctx):
         "evaluations": sw["evaluations"] + sw["chain_steps"] + cov["scenarios"],
         "distinct_nontrivial": sw["evaluations"],
         "rule": "sweep: every one of the 65536 values the generation can hold at the start of an update is poked into a mapped valid segment and one real write() is run, an independent observer (pread of the file) sampling the generation at every hook point of the update: "
-                "odd while any record word is written, even/non-zero/different afterwards, record intact; distinct_nontrivial = start values covered (all are distinct). "
+                "odd while any record word is written, never 0 on the way, even/non-zero/different afterwards, record intact; then the same start value once more with the very same record republished; distinct_nontrivial = start values covered (all are distinct). "
                 "chains: consecutive updates across the wrap; sched: histories with writer stops at every point and restarts, same observer (induction step: every state the next update can start from is in the sweep)",
         "samples": samples[:3] + ssamples[:1],
         "exhaustive": True,
